@@ -30,13 +30,17 @@ type ctx struct {
 	// chunking
 	header   func()
 	inHeader bool
+	// stateful traces (chains): the driver calls rotateIfDue at the start of a chain, so that a chain
+	// never straddles two chunk files (the trace specification's state starts afresh in every chunk)
+	manualRotate bool
+	chunkStart   int
 	outBase  string
 	chunk    int
 	maxLines int
 }
 
 func (c *ctx) emit(v interface{}) {
-	if c.maxLines > 0 && c.lines > 0 && c.lines%c.maxLines == 0 && !c.inHeader {
+	if c.maxLines > 0 && !c.manualRotate && c.lines-c.chunkStart >= c.maxLines && !c.inHeader {
 		c.rotate()
 	}
 	b, err := json.Marshal(v)
@@ -69,7 +73,14 @@ func (c *ctx) open() {
 func (c *ctx) rotate() {
 	c.close()
 	c.chunk++
+	c.chunkStart = c.lines
 	c.open()
+}
+
+func (c *ctx) rotateIfDue() {
+	if c.maxLines > 0 && c.lines-c.chunkStart >= c.maxLines {
+		c.rotate()
+	}
 }
 
 func (c *ctx) close() {
